@@ -2,6 +2,7 @@
    Constant pacer: proved in full (exact integer arithmetic).  Linear and sine pacers: see
    the partial statements at the end and DESIGN.md. *)
 From Coq Require Import ZArith List Bool Lia.
+From V Require Import Model.AttackLTS Proofs.AttackProofs Proofs.LoopScheduleProofs.
 From V Require Import Model.Pacer Proofs.PacerProofs Model.LinearPacer Proofs.LinearProofs Model.Trig Model.SinePacer Proofs.TrigProofs Proofs.SineProofs.
 From Coq Require Import Qround.
 Import ListNotations.
@@ -63,6 +64,26 @@ Theorem const_lower : forall F P t k w,
   const_pace F P t k = Wait w -> F * (t + Z.max w 0) < (k + 1) * P + F.
 Proof. exact const_lower_step. Qed.
 Print Assumptions const_lower.
+
+(* The closed loop that really runs: the attack loop of lib/attack.go (LTS of Model/AttackLTS.v: any
+   number of workers, rendezvous channels, Stop calls, late wake-ups) consulting the constant pacer.
+   In every reachable state whose recorded consultations are answers of ConstantPacer.Pace, the
+   ticks released and the hits started (sequence numbers taken) by the model's clock [now] are on
+   the schedule S(now) = Freq * now / Per - not even one hit above it. *)
+Theorem attack_loop_constant_on_schedule : forall F P c s, 0 < F -> 0 < P -> reachable c s ->
+  (forall e h w, In (e, h, w, false) (paces s) -> const_dom F P e h /\ const_pace F P e h = Wait w) ->
+  count s * P <= F * now s /\ seq s * P <= F * now s.
+Proof.
+  intros F P c s HF HP R Hp.
+  destruct (loop_on_schedule_lemma (const_pace F P) (const_adm F P) (const_dom F P)) with (c := c) (s := s) as (A & _ & B).
+  - intros t t' k H Ht. exact (const_adm_mono F P t t' k HF H Ht).
+  - intros t k w D _ E. unfold const_adm. exact (const_contract_lemma F P t k w D E).
+  - unfold const_adm. lia.
+  - exact R.
+  - exact Hp.
+  - unfold const_adm in A. split; [exact A | nia].
+Qed.
+Print Assumptions attack_loop_constant_on_schedule.
 
 (* The pinned ConstantPacer.Pace (before the fix: commit): three refutations. *)
 Theorem const_no_panic_refuted :
